@@ -524,8 +524,19 @@ func fillOutcome(o *Outcome, res *simrt.Result, opts RunOpts) {
 	o.SchedSig = res.SchedSig
 	o.Steps = res.Steps
 	o.FakeTime = res.FakeTime
-	o.Faults = res.Stats.Faults
-	o.Probes = res.Stats.Probes
+	// merge: probes and faults that an engine counted on the outcome while the world was running stay
+	for k, v := range res.Stats.Faults {
+		if o.Faults == nil {
+			o.Faults = map[string]int{}
+		}
+		o.Faults[k] += v
+	}
+	for k, v := range res.Stats.Probes {
+		if o.Probes == nil {
+			o.Probes = map[string]int{}
+		}
+		o.Probes[k] += v
+	}
 	o.Procs = res.Stats.Procs
 	for _, n := range res.Stats.Ops {
 		o.Ops += n
